@@ -67,6 +67,10 @@ type GenOpts struct {
 	MapLitPure bool // map literal values without side effects (evalMapLiteral order is a known C08 finding)
 	ErrAlias   bool // programs that alias err/errmsg (known C09 finding)
 	Empties    bool // empty literals [] {} in arbitrary expression positions (parser stress)
+	// MoreBuiltins adds calls of the built-ins of the proved C02 fragment that the other options never emit: printf
+	// (statement), sprintf with number / composite / missing / non-string format operands, hsl, sqrt, pow, atan2, log,
+	// sin, cos, rand, rand1 and the remaining simple graphics calls. Off: the random stream is unchanged.
+	MoreBuiltins bool
 }
 
 type progGen struct {
@@ -218,6 +222,20 @@ func (g *progGen) expr(t *gty, depth int) string {
 			fn := []string{"floor", "ceil", "round"}[g.pick(3)]
 			return "(" + fn + " " + paren(g.expr(tNum, depth-1)) + ")"
 		default:
+			if g.o.MoreBuiltins && g.pick(2) == 0 {
+				switch g.pick(4) {
+				case 0:
+					fn := []string{"pow", "atan2"}[g.pick(2)]
+					return "(" + fn + " " + paren(g.expr(tNum, depth-1)) + " " + paren(g.expr(tNum, depth-1)) + ")"
+				case 1:
+					fn := []string{"sqrt", "log", "sin", "cos"}[g.pick(4)]
+					return "(" + fn + " " + paren(g.expr(tNum, depth-1)) + ")"
+				case 2:
+					return "(rand " + paren(g.expr(tNum, depth-1)) + ")"
+				default:
+					return "(rand1)"
+				}
+			}
 			return "(" + g.expr(tNum, depth-1) + ")"
 		}
 	case "string":
@@ -277,6 +295,19 @@ func (g *progGen) expr(t *gty, depth int) string {
 			}
 			return strLits[g.pick(len(strLits))]
 		default:
+			if g.o.MoreBuiltins && g.pick(2) == 0 {
+				switch g.pick(3) {
+				case 0:
+					// hsl: 1-4 num arguments (0 or more than 4: the evy panic "bad arguments")
+					out := "(hsl"
+					for i, n := 0, g.pick(6); i < n; i++ {
+						out += " " + paren(g.expr(tNum, depth-1))
+					}
+					return out + ")"
+				default:
+					return "(sprintf" + g.fmtOperands(depth-1) + ")"
+				}
+			}
 			return paren(g.expr(tAny, depth-1)) + ".(string)"
 		}
 	case "bool":
@@ -692,9 +723,49 @@ func (g *progGen) stmt(indent, depth int, last bool) (terminated bool) {
 			}
 		}
 	default:
+		if g.o.MoreBuiltins && g.pick(3) == 0 {
+			g.moreBuiltinStmt(indent, d)
+			break
+		}
 		g.line(indent, "print "+paren(g.expr(g.randType(), d)))
 	}
 	return false
+}
+
+// fmtOperands: the operands of a sprintf / printf call: usually a format literal with matching, mismatching,
+// missing or surplus operands of every value type (numbers and composite values included: String() of an array /
+// map for %v), sometimes a format that is not a literal, not a string, or absent ("bad arguments").
+func (g *progGen) fmtOperands(depth int) string {
+	switch g.pick(10) {
+	case 0:
+		return ""
+	case 1:
+		return " " + paren(g.expr([]*gty{tNum, tBool, tArr(tNum)}[g.pick(3)], depth)) + " " + paren(g.expr(tStr, depth))
+	case 2:
+		return " " + paren(g.expr(tStr, depth)) + " " + paren(g.expr(g.randType(), depth))
+	}
+	formats := []string{`"%v"`, `"%v %v\n"`, `"%s|%5s|%-5s|"`, `"%q-%t"`, `"%d %5.2f %x"`, `"%v%%"`, `"%"`, `"%!"`, `"%[2]v %[1]v"`, `"%*d"`, `"no verbs\n"`, `"%T %p"`}
+	out := " " + formats[g.pick(len(formats))]
+	for i, n := 0, g.pick(4); i < n; i++ {
+		out += " " + paren(g.expr(g.randType(), depth))
+	}
+	return out
+}
+
+func (g *progGen) moreBuiltinStmt(indent, d int) {
+	switch g.pick(8) {
+	case 0, 1, 2, 3:
+		g.line(indent, "printf"+g.fmtOperands(d-1))
+	case 4:
+		g.line(indent, "rect "+paren(g.expr(tNum, 1))+" "+paren(g.expr(tNum, 1)))
+	case 5:
+		g.line(indent, "width "+paren(g.expr(tNum, 1)))
+	case 6:
+		fn := []string{"colour", "stroke", "fill", "linecap", "text"}[g.pick(5)]
+		g.line(indent, fn+" "+paren(g.expr(tStr, 1)))
+	default:
+		g.line(indent, "print (sprintf"+g.fmtOperands(d-1)+")")
+	}
 }
 
 // shadowGlobal sometimes reads and updates a global and then declares a local of the same name
